@@ -279,7 +279,7 @@ theorem encV_chunk (d : Defs) : ∀ (n : Nat) (t : Ty) (v : Val) (es : List Even
       · cases henc
       · cases henc
     case h_13 nm fs =>
-      obtain ⟨sd, hsd, hnd, hcanon, hun, hreq, hfields⟩ := hwt
+      obtain ⟨sd, hsd, hnd, hcanon, hun, hreq, hfields, hset, hdflt⟩ := hwt
       obtain ⟨sd', hsd', hids, hff⟩ := hfit
       rw [hsd] at hsd'; cases hsd'
       simp only [hsd] at henc
@@ -293,8 +293,10 @@ theorem encV_chunk (d : Defs) : ∀ (n : Nat) (t : Ty) (v : Val) (es : List Even
           refine Chunk.flatten (fieldEvents d (encV d n) sd fs) (fun f => f ∈ sd.fields) ?_ sd.fields cs hall (fun f hf => hf)
           intro f c hf hc
           unfold fieldEvents at hc
-          split at hc
-          · rename_i fv hl
+          cases hl : lookupVal fs f.id with
+          | some fv =>
+            simp only [hl] at hc
+            rw [if_pos (hset f hf fv hl)] at hc
             split at hc
             · rename_i fes hfes
               cases hc
@@ -303,15 +305,11 @@ theorem encV_chunk (d : Defs) : ∀ (n : Nat) (t : Ty) (v : Val) (es : List Even
                 (ctype_wireOf_ne d f.ty hsh.1) (ih f.ty fv fes (hfields f hf fv hl) (hff f hf fv hl) hfes) hsh.2
             · cases hc
             · cases hc
-          · split at hc
-            · cases hc; exact Chunk.nil
-            · split at hc
-              · rename_i zs hz
-                cases hc
-                obtain ⟨h1, h2, h3⟩ := zeroEvents_chunk d f.ty zs hz
-                exact Chunk.field _ _ _ _ (hids f hf) (wireOf_cmpTT d f.ty) (wireOf_lt d f.ty) h3
-                  (ctype_wireOf_ne d f.ty h3) h1 h2
-              · cases hc
+          | none =>
+            -- a well-formed value lists its non-optional fields: only an unset optional field is left
+            simp only [hl] at hc
+            rw [if_pos (optional_of_absent sd fs hreq f hf hl)] at hc
+            cases hc; exact Chunk.nil
         · cases henc
         · cases henc
 
